@@ -1659,6 +1659,49 @@ impl Node {
         Some(&self._kind)
     }
 
+    /// verification hook: kind tag, also for invalid nodes
+    #[cfg(cormacrelf_incremental_rs_verif)]
+    pub(crate) fn verif_kind_tag(&self) -> &'static str {
+        match &self._kind {
+            Kind::Constant(_) => "Const",
+            Kind::ArrayFold(_) => "Fold",
+            Kind::Var(_) => "Var",
+            Kind::Map(_) => "Map",
+            Kind::MapRef(_) => "MapRef",
+            Kind::MapWithOld(_) => "MapWithOld",
+            Kind::Map2(_) => "Map2",
+            Kind::Map3(_) => "Map3",
+            Kind::Map4(_) => "Map4",
+            Kind::Map5(_) => "Map5",
+            Kind::Map6(_) => "Map6",
+            Kind::BindLhsChange { .. } => "BindLhsChange",
+            Kind::BindMain { .. } => "BindMain",
+            Kind::Expert(_) => "Expert",
+        }
+    }
+
+    /// verification hook: children with their indices (empty for invalid nodes)
+    #[cfg(cormacrelf_incremental_rs_verif)]
+    pub(crate) fn verif_children(&self) -> Vec<(i32, NodeRef)> {
+        let mut v = vec![];
+        self.foreach_child(&mut |ix, child| v.push((ix, child)));
+        v
+    }
+
+    /// verification hook: expert bookkeeping (force_stale, num_invalid_children, will_fire_all_callbacks, #edges)
+    #[cfg(cormacrelf_incremental_rs_verif)]
+    pub(crate) fn verif_expert(&self) -> Option<(bool, i32, bool, usize)> {
+        match &self._kind {
+            Kind::Expert(e) => Some((
+                e.force_stale.get(),
+                e.num_invalid_children.get(),
+                e.will_fire_all_callbacks.get(),
+                e.children.borrow().len(),
+            )),
+            _ => None,
+        }
+    }
+
     fn maybe_change_value(
         &self,
         value: SmallBox<dyn ValueInternal>,
